@@ -83,6 +83,9 @@ type genTx struct {
 	Kind   string
 	NoExec bool // must never take effect whatever the state (forged / foreign-domain / altered)
 	Orig   []byte // the unaltered byte string an altered one was derived from
+	// PreCheck: genuine byte strings that are only CheckTx'ed on both replicas
+	// before this block (never delivered): the source of a spliced envelope.
+	PreCheck [][]byte
 }
 
 type plan struct {
@@ -93,6 +96,7 @@ type plan struct {
 	initNonce   map[int]uint64 // account index -> genesis nonce
 	blocks      [][]genTx
 	restart     []bool
+	warm        bool // CheckTx every byte string of a block on both replicas before it is delivered
 }
 
 // ---------------------------------------------------------------------------
@@ -337,6 +341,7 @@ func planParams(seed uint64) *plan {
 	p.maxTxSize = []uint64{32768, 32768, 420}[r.Intn(3)]
 	p.initNonce[4] = math.MaxUint64 - uint64(r.Intn(3)) // wraps during the history
 	p.initNonce[5] = []uint64{1<<63 - 1, 1 << 32, 7}[r.Intn(3)]
+	p.warm = r.Chance(50)
 	return p
 }
 
@@ -396,6 +401,16 @@ func buildPlan(seed uint64, nblocks, ntx int, g *muxdrv.Genesis, p *plan) {
 	}
 	rf := newRef(g, p)
 	var pool [][]byte // byte strings that passed authentication in the reference at some point
+	// every correctly signed byte string generated so far (whatever became of it), with its signer
+	type vsrc struct {
+		raw []byte
+		s   *signer
+	}
+	var validPool []vsrc
+	byAddr := map[string]*signer{}
+	for _, s := range signers {
+		byAddr[s.addr.String()] = s
+	}
 	fee := func() *transaction.Fee {
 		gas := uint64(muxdrv.DefaultGas)
 		amt := uint64(10)
@@ -450,6 +465,29 @@ func buildPlan(seed uint64, nblocks, ntx int, g *muxdrv.Genesis, p *plan) {
 		return muxdrv.TxTransfer(nonce, f, to, amt)
 	}
 	refNonce := func(s *signer) uint64 { return rf.nonce[s.addr.String()] }
+	attacker := signers[len(signers)-1]
+	// splice: (blob', pk, sig) -- public key and signature of a genuine envelope of
+	// signer src on a different, never-signed, well-formed body carrying src's current nonce
+	splice := func(srcRaw []byte, src *signer) []byte {
+		var st transaction.SignedTransaction
+		if err := cbor.Unmarshal(srcRaw, &st); err != nil {
+			panic(err)
+		}
+		var tx *transaction.Transaction
+		n := refNonce(src)
+		switch r.Intn(4) {
+		case 0:
+			tx = muxdrv.TxTransfer(n, okFee(), attacker.addr, uint64(r.Range(100, 5000)))
+		case 1:
+			tx = muxdrv.TxBurn(n, okFee(), uint64(r.Range(100, 5000)))
+		case 2:
+			tx = muxdrv.TxTransfer(n, okFee(), signers[r.Intn(6)].addr, uint64(r.Range(10, 900)))
+		default:
+			tx = muxdrv.TxTransfer(n, muxdrv.Fee(0, muxdrv.DefaultGas), attacker.addr, 1000)
+		}
+		st.Blob = cbor.Marshal(tx)
+		return cbor.Marshal(&st)
+	}
 	for b := 0; b < nblocks; b++ {
 		var blk []genTx
 		n := r.Range(ntx/2+1, ntx)
@@ -460,7 +498,36 @@ func buildPlan(seed uint64, nblocks, ntx int, g *muxdrv.Genesis, p *plan) {
 			}
 			var add []genTx
 			k := r.Intn(100)
+			if sp := r.Intn(100); sp < 10 {
+				k = -1 // spliced envelopes
+				switch {
+				case sp < 5 && len(validPool) > 0:
+					// source: a genuine envelope seen earlier (often just before, in this block)
+					v := validPool[r.Intn(len(validPool))]
+					if r.Chance(50) {
+						v = validPool[len(validPool)-1-r.Intn(min(3, len(validPool)))]
+					}
+					add = []genTx{{Raw: splice(v.raw, v.s), Kind: "spliced", NoExec: true}}
+				case sp < 7:
+					// genuine envelope delivered right before its spliced copy
+					g0 := muxdrv.Sign(s.key, freshTx(s, refNonce(s)+uint64(r.Intn(2)))) // sometimes fails on the nonce
+					add = []genTx{{Raw: g0, Kind: "fresh"}}
+					validPool = append(validPool, vsrc{g0, s})
+				case sp < 9:
+					// source only CheckTx'ed, never delivered
+					g0 := muxdrv.Sign(s.key, muxdrv.TxTransfer(refNonce(s), okFee(), signers[r.Intn(6)].addr, 50))
+					add = []genTx{{Raw: splice(g0, s), Kind: "spliced-checked", NoExec: true, PreCheck: [][]byte{g0}}}
+				case len(validPool) > 0:
+					// (blob, pk', sig): somebody else's key on a genuine blob and signature
+					v := validPool[r.Intn(len(validPool))]
+					o := signers[r.Intn(len(signers))]
+					if o != v.s {
+						add = []genTx{{Raw: muxdrv.WithSigner(v.raw, o.key.Public()), Kind: "spliced-key", NoExec: true}}
+					}
+				}
+			}
 			switch {
+			case k < 0:
 			case k < 34:
 				add = []genTx{{Raw: muxdrv.Sign(s.key, freshTx(s, refNonce(s))), Kind: "fresh"}}
 			case k < 39: // a run of consecutive nonces, possibly reordered
@@ -530,9 +597,22 @@ func buildPlan(seed uint64, nblocks, ntx int, g *muxdrv.Genesis, p *plan) {
 			}
 			for _, t := range add {
 				a, _ := abstract(t.Raw, chain)
+				if a.Env && a.SigValid {
+					if sg := byAddr[a.Addr]; sg != nil {
+						validPool = append(validPool, vsrc{t.Raw, sg})
+					}
+				}
 				if au, _ := rf.apply(a); au {
 					pool = append(pool, t.Raw)
 				}
+				blk = append(blk, t)
+			}
+			if k < 0 && len(add) == 1 && add[0].Kind == "fresh" && r.Chance(80) {
+				// ... and now its spliced copy, in the same block
+				v := validPool[len(validPool)-1]
+				t := genTx{Raw: splice(v.raw, v.s), Kind: "spliced", NoExec: true}
+				a, _ := abstract(t.Raw, chain)
+				rf.apply(a)
 				blk = append(blk, t)
 			}
 		}
@@ -655,6 +735,20 @@ func runHistory(seed uint64, nblocks, ntx, upto int, drop [][2]int) (out *runOut
 			if err := disk.Restart(nil); err != nil {
 				viol(b, "restart failed: "+err.Error(), nil)
 				return
+			}
+		}
+		// mempool checks on the executing replicas before delivery (results are not
+		// observables of the property; a verification cache would be warm afterwards)
+		for _, t := range gts {
+			for _, pc := range t.PreCheck {
+				_, _ = disk.CheckTx(pc, false)
+				_, _ = prop.CheckTx(pc, false)
+			}
+		}
+		if p.warm {
+			for _, raw := range raws {
+				_, _ = disk.CheckTx(raw, false)
+				_, _ = prop.CheckTx(raw, false)
 			}
 		}
 		// abstraction + tracked addresses
@@ -848,6 +942,7 @@ func runHistory(seed uint64, nblocks, ntx, upto int, drop [][2]int) (out *runOut
 		for i, t := range gts {
 			d.Kinds = append(d.Kinds, t.Kind+"/"+classes[i])
 		}
+		stats = append(stats, fmt.Sprintf("checktx-before-delivery:%v", p.warm))
 		stats = append(stats, fmt.Sprintf("params:minTransact=%d,minGasPrice=%d,maxTxSize=%d", p.minTransact, p.minGasPrice, p.maxTxSize))
 		if p.restart[b] {
 			stats = append(stats, "restart:before-block")
